@@ -44,6 +44,8 @@ def urem(x, y): return T('urem', (lift(x), lift(y)))
 def umul(x, y): return T('umul', (lift(x), lift(y)))
 def umulovf(x, y): return T('umulovf', (lift(x), lift(y)))
 def sdiv(x, y, bits): return T('sdiv', (lift(x), lift(y)), val=bits)      # signed (truncating) division on the two's-complement reading of `bits`-bit patterns
+def smul(x, y, bits=64): return T('smul', (lift(x), lift(y)), val=bits)
+def smulovf(x, y, bits=64): return T('smulovf', (lift(x), lift(y)), val=bits)
 def slt(x, y, bits): return T('slt', (lift(x), lift(y)), val=bits)
 def sle(x, y, bits): return T('sle', (lift(x), lift(y)), val=bits)
 def eq(x, y): return T('eq', (lift(x), lift(y)))
@@ -64,12 +66,15 @@ SPEC_FUNS = {
     'gcd': (2, 'Nat.gcd x0 x1'),
     'isqrt': (1, 'Nat.sqrt x0'),
     'pow': (2, 'x0 ^ x1'),
+    'spow': (2, 'enc 64 (sval 64 x0 ^ x1)'),
     'jac': (2, '(jacobiSym (x0 : ℤ) x1 + 1).toNat'),     # Jacobi symbol (x0 | x1), encoded as J + 1 in {0, 1, 2}
 }
 SPEC_PREDS = {
     'issquare': (1, '∃ k : Nat, k * k = x0'),
     'powfits': (2, 'x0 ^ x1 < W'),
     'poweq': (5, 'x0 * x1 ^ x2 = x3 ^ x4'),
+    'spoweq': (5, 'sval 64 x0 * sval 64 x1 ^ x2 = sval 64 x3 ^ x4'),
+    'spowfits': (2, 'sval 64 x0 ^ x1 < (9223372036854775808 : Int)'),
     'sprodfits64': (2, '(-9223372036854775808 : Int) ≤ sval 64 x0 * sval 64 x1 ∧ sval 64 x0 * sval 64 x1 ≤ 9223372036854775807'),
     'sprodfits32': (2, '(-2147483648 : Int) ≤ sval 32 x0 * sval 32 x1 ∧ sval 32 x0 * sval 32 x1 ≤ 2147483647'),
 }
@@ -104,6 +109,8 @@ def c_text(t, env):
     if o == 'sdiv':
         assert not is_const(a[1])
         return '((uint%d_t)LL2C_SDIV%d((int%d_t)%s, (int%d_t)%s))' % (t.val, t.val, t.val, r(a[0]), t.val, r(a[1]))
+    if o == 'smul': return '((uint64_t)LL2C_SMUL64((int64_t)%s, (int64_t)%s))' % (r(a[0]), r(a[1]))
+    if o == 'smulovf': return 'LL2C_SMULOVF64((int64_t)%s, (int64_t)%s)' % (r(a[0]), r(a[1]))
     if o in ('slt', 'sle'):
         return '((int%d_t)%s %s (int%d_t)%s)' % (t.val, r(a[0]), '<' if o == 'slt' else '<=', t.val, r(a[1]))
     if o == 'add': return '((uint64_t)((uint64_t)%s + (uint64_t)%s))' % (r(a[0]), r(a[1]))
@@ -131,6 +138,8 @@ def lean_text(t):
     if o == 'umul': return '(%s * %s %% W)' % (r(a[0]), r(a[1]))
     if o == 'umulovf': return '(W ≤ %s * %s)' % (r(a[0]), r(a[1]))
     if o == 'sdiv': return '(enc %d (Int.tdiv (sval %d %s) (sval %d %s)))' % (t.val, t.val, r(a[0]), t.val, r(a[1]))
+    if o == 'smul': return '(enc 64 (sval 64 %s * sval 64 %s))' % (r(a[0]), r(a[1]))
+    if o == 'smulovf': return '(¬ ((-9223372036854775808 : Int) ≤ sval 64 %s * sval 64 %s ∧ sval 64 %s * sval 64 %s ≤ 9223372036854775807))' % (r(a[0]), r(a[1]), r(a[0]), r(a[1]))
     if o in ('slt', 'sle'): return '(sval %d %s %s sval %d %s)' % (t.val, r(a[0]), '<' if o == 'slt' else '≤', t.val, r(a[1]))
     if o == 'add': return '((%s + %s) %% W)' % (r(a[0]), r(a[1]))
     if o == 'sub': return '((%s + W - %s) %% W)' % (r(a[0]), r(a[1]))
